@@ -32,7 +32,7 @@ CLAIMED = {
  "C05": dict(engine="qsbrsim", level="exploration", design="DESIGN.md §6 C05",
    text="Abstract QSBR programs (publish, take reference to a linked object, touch, drop, unlink+on_next_epoch_deallocate, quiescent, pause+resume, spawn qsbr_thread, exit) of 2-4 threads over the real QSBR; "
         "every atomic step inside register/unregister/quiescent/orphan hand-over is a scheduling point and weak-CAS sites fail spuriously (buggify). A monitor checks at every free that each other thread "
-        "registered at the time of the request has since been inside quiescent/pause/exit, and that nobody holds a reference taken while the object was linked.",
+        "registered at the time of the request has since been inside quiescent/pause/exit, and that nobody holds a reference taken while the object was linked. A separate full-speed probe (-O2 build) stalls a reader that holds a reference while another thread goes through 2^32 quiescent states (width of the per-epoch counters).",
    note="<= 4 threads + 1 spawned child, <= 8 objects; probes show the 'impossible to get deterministically' branches of qsbr.cpp are taken. " + SC,
    technique="deterministic simulation: seeded scheduler + buggify + QSBR monitor over call/return stamps"),
  "C06": dict(engine="qsbrsim", level="exploration", design="DESIGN.md §6 C06",
@@ -68,9 +68,9 @@ CLAIMED = {
    note="Representable key sets only; statistics-enabled builds. " + SC,
    technique="deterministic simulation: seeded histories checked against a reference radix-tree shape model and the allocation ledger"),
  "C13": dict(engine="mutexsim", level="exploration", design="DESIGN.md §6 C13",
-   text="2-8 plain simulated threads x 1-5 operations (get/insert/remove/empty/clear/scans; at most 22 per history) on one mutex_db<uint64> or mutex_db<key_view> over small key pools; scheduling points at every wrapped mutex call, every in_fake_critical_section access and "
+   text="2-8 plain simulated threads x 1-5 operations (get/insert/remove/empty/clear/scans/dump/statistics getters; values of 0-32 bytes; at most 22 per history) on one mutex_db<uint64> or mutex_db<key_view> over small key pools; scheduling points at every wrapped mutex call, every in_fake_critical_section access and "
         "allocation notification inside the tree, and while a get handle is held; allocation failures are injected into inserts and removes (a failed operation must have no effect and must not leave the mutex held). The mutex is simulated as a blocking resource. Whole-history linearizability against a map with multi-key operations; owns_lock() == hit "
-        "and the simulator's owner table after every call; held values re-read while writers queue; ledger flags a leaf freed under a held handle; deadlock detection.",
+        "and the simulator's owner table after every call; held values re-read while writers queue; ledger flags a leaf freed under a held handle; statistics getters must report a state the index had between two operations (sampled at every release of the index mutex); deadlock detection; try_lock is simulated as well.",
    note="<= 22 operations per history; the quantifier's free-running threads are replaced by schedules the simulator decides. " + SC,
    technique="deterministic simulation: seeded scheduler with simulated mutex blocking + whole-map linearizability checking"),
  "C14": dict(engine="olcsim", level="exploration", design="DESIGN.md §6 C14",
